@@ -29,6 +29,7 @@ ASSUMPTIONS = ['expected values come from the real offline monitor on each prefi
                'envelope rules exclude the regions of the open known findings listed in known_findings.jsonl']
 REAL = common.REAL_ALL
 STUBS = common.STUBS_ALL
+INTERLEAVING_MEASURE = 'distinct (history length, horizon, notation class) tuples'
 PROBES = ['horizon_gt_3', 'sibling_horizons_differ', 'explicit_units', 'no_future_operator', 'past_above_future', 'next_used']
 ENVELOPE_RULES = ['memory-past-above-delayed: a memoryful past operator (rise fall prev s_prev once historically since, bounded or '
                   'not) above a sub-formula with horizon > 0 (known finding F08)']
@@ -162,6 +163,7 @@ def run(sc):
         r.probes['explicit_units'] += 1
         r.faults['unit_notation_non_default'] += 1
     r.faults['online_stepping'] += n
+    r.interleavings.add('n=%d|h=%d|%s' % (n, hh, units.notation_class(notation)))
     if any(x[0] in sg.MEMORY_PAST for x in sg.walk(ast)) and has_future:
         r.probes['past_above_future'] += 1
     if any(x[0] in sg.SHIFT_FUT for x in sg.walk(ast)):
